@@ -1484,6 +1484,26 @@ func (a allocator) allocated(v any) bool {
 	return ok
 }
 
+// release the containers in v from the allocator not to update them in place.
+func (a allocator) release(v any) {
+	switch v := v.(type) {
+	case map[string]any:
+		if a.allocated(v) {
+			delete(a, reflect.ValueOf(v).Pointer())
+			for _, w := range v {
+				a.release(w)
+			}
+		}
+	case []any:
+		if a.allocated(v) {
+			delete(a, reflect.ValueOf(v).Pointer())
+			for _, w := range v {
+				a.release(w)
+			}
+		}
+	}
+}
+
 func (a allocator) makeObject(l int) map[string]any {
 	v := make(map[string]any, l)
 	if a != nil {
@@ -1808,6 +1828,30 @@ func funcGetpath(v, p any) any {
 		}
 	}
 	return v
+}
+
+// Used in compiler#compileModify. The value is passed to the update filter,
+// which may retain it in the result, so the containers in the value must not
+// be updated in place afterwards. A slice shares the array with its origin.
+func funcGetpathWithAllocator(v any, args []any) any {
+	u := funcGetpath(v, args[0])
+	a := args[1].(allocator)
+	if len(a) == 0 {
+		return u
+	}
+	if w, ok := u.([]any); ok {
+		for _, p := range args[0].([]any) {
+			if _, ok := p.(map[string]any); ok {
+				w = slices.Clone(w)
+				for _, x := range w {
+					a.release(x)
+				}
+				return w
+			}
+		}
+	}
+	a.release(u)
+	return u
 }
 
 func funcTranspose(v any) any {
